@@ -7,6 +7,8 @@ import Gene.Spec.Admit
 import Gene.Spec.Scan
 import Gene.RelCheck
 import Gene.ScanResultApi
+import Gene.F64Parse
+import Gene.NumApi
 /-! Line-protocol driver: one JSON object per input line, one JSON answer per line.
     Runs the model's executable definitions (the very ones the theorems are about) and the spec's. -/
 open Lean Gene
@@ -589,7 +591,7 @@ def parseScenario (j : Json) : E (Ext × List Tpls × List Json × List Rule × 
       | none => pure ({} : Tables)
       | some e => jTables e
     let x : Ext :=
-      { fparse := fun s => (t.fp.lookup s).getD none
+      { fparse := M.parseF64
         rxOk := fun p => match t.rx.lookup p with
           | some (ok, _) => ok
           | none => false
@@ -726,7 +728,7 @@ def handle (j : Json) : E Json := do
       | none => pure ({} : Tables)
       | some e => jTables e
     let x : Ext :=
-      { fparse := fun s => (t.fp.lookup s).getD none
+      { fparse := M.parseF64
         rxOk := fun p => match t.rx.lookup p with
           | some (ok, _) => ok
           | none => true
@@ -765,7 +767,7 @@ def handle (j : Json) : E Json := do
       (if lateCalls.isEmpty then [] else [("late", Json.arr late.toArray)]) ++ [("rules", rules)]
     pure (Json.mkObj [("model", Json.mkObj [("outs", Json.arr #[Json.mkObj fields])])])
   | "history" =>
-    let x : Ext := { fparse := fun _ => none, rxOk := fun _ => true, rxMatch := fun _ _ => false }
+    let x : Ext := { fparse := M.parseF64, rxOk := fun _ => true, rxMatch := fun _ _ => false }
     let ops := (← (← j.getObjVal? "ops").getArr?).toList
     let errJ := fun (e : CompErr) => Json.mkObj [("err", compErrJson e)]
     let rec go : List Json → Compiler → List Json → E (List Json)
@@ -845,6 +847,16 @@ def handle (j : Json) : E Json := do
         | none => Json.str "float"
       | _ => Json.str "bad")
     pure (Json.mkObj [("model", Json.arr outs.toArray)])
+  | "num_out" =>
+    let ns ← (← (← j.getObjVal? "ns").getArr?).toList.mapM jValue
+    let outs := ns.map (fun v => match v with
+      | .num n => Json.mkObj [
+          ("i64", match M.tryI64 n with | some i => Json.num i | none => Json.null),
+          ("u64", match M.tryU64 n with | some u => Json.num (Int.ofNat u) | none => Json.null),
+          ("f64", match M.tryF64 n with | some x => Json.str (fvalBits x) | none => Json.null),
+          ("is", Json.arr #[Json.bool (M.numIsInt n), Json.bool (M.numIsUint n), Json.bool (M.numIsFloat n)])]
+      | _ => Json.str "bad")
+    pure (Json.mkObj [("model", Json.arr outs.toArray)])
   | "hexparse" =>
     let ts ← jStrList (← j.getObjVal? "ts")
     let outs := ts.map (fun t => match M.numParse (fun _ => none) t with
@@ -864,7 +876,7 @@ def handle (j : Json) : E Json := do
       | none => pure ({} : Tables)
       | some e => jTables e
     let x : Ext :=
-      { fparse := fun s => (t.fp.lookup s).getD none
+      { fparse := M.parseF64
         rxOk := fun p => match t.rx.lookup p with
           | some (ok, _) => ok
           | none => false
@@ -917,7 +929,7 @@ def handle (j : Json) : E Json := do
           | .str h => pure (k.toList, hexNat h)
           | _ => pure (k.toList, none))
     let x : Ext :=
-      { fparse := fun s => (t.fp.lookup s).getD none
+      { fparse := M.parseF64
         rxOk := fun p => match t.rx.lookup p with
           | some (ok, _) => ok
           | none => false
@@ -998,7 +1010,13 @@ partial def loop (hin : IO.FS.Stream) (hout : IO.FS.Stream) : IO Unit := do
         | .ok i => [("cid", i)]
         | .error _ => []
       match handle j with
-      | .ok r => Json.mkObj (idf ++ [("r", r)])
+      | .ok r =>
+        -- the table of `f64::from_str` results shipped with the case (computed by the real std in the harness) against
+        -- the model's own reading of each number text
+        let diff : List Json := match (jOpt j "ext").bind (fun e => match jTables e with | .ok t => some t | .error _ => none) with
+          | some t => (t.fp.filter (fun (p : Str × Option FVal) => p.1.contains '.' && M.parseF64 p.1 != p.2)).map (fun (p : Str × Option FVal) => sJ p.1)
+          | none => []
+        Json.mkObj (idf ++ [("r", r)] ++ (if diff.isEmpty then [] else [("fpdiff", Json.arr diff.toArray)]))
       | .error e => Json.mkObj (idf ++ [("error", Json.str e)])
   hout.putStrLn out.compress
   loop hin hout
